@@ -21,6 +21,7 @@ RULE = (
     "per-tower max/length/floor count) substituted by {0,1,2,actual+-1,2^16,2^32,2^40,2^63,2^64-1} singly and in pairs, all-zero replies of length 0..64: return or raise within "
     "50000+100*len line events and 1MiB+64*len allocation (direct) and through the stack (single substitutions). state = one delivered reply (environment answer); transition = one client run."
     " For half of the cases the endpoint mapper closes its end right after the ept_map reply (the client's shutdown() meets ENOTCONN)."
+    ' Also replies of 3 000..5 840 octets in one fragment (the max_recv_frag the client itself advertises).'
 )
 ASSUME = ["ref/epm.py NDR64 layout calibrated on the captured ept_map reply", "scripted security context on the ISD_KEY connection (authentication is not what is explored here)"]
 BOUND = {"quick": "full residue product for <=2 towers", "thorough": "full residue product for <=3 towers, all TCP placements x statuses x handles"}
